@@ -191,12 +191,25 @@ func wspDial(addr, path string) (*wspClient, error) {
 		return nil, err
 	}
 	w.data = data
-	w.seq++
-	data.WriteMessage(websocket.TextMessage, []byte(fmt.Sprintf("WSP/1.1 JOIN\r\nchannel: %s\r\nseq: %d\r\n\r\n", w.channel, w.seq)))
-	if _, msg, err = data.ReadMessage(); err != nil || !strings.Contains(string(msg), " 200 ") {
-		return nil, fmt.Errorf("JOIN failed: %q %v", msg, err)
+	// the server answers INIT before it has stored the new session, so a JOIN sent at once can still get 404:
+	// retry on a fresh data connection (the server closes the data connection after a 404)
+	for try := 0; ; try++ {
+		w.seq++
+		data.WriteMessage(websocket.TextMessage, []byte(fmt.Sprintf("WSP/1.1 JOIN\r\nchannel: %s\r\nseq: %d\r\n\r\n", w.channel, w.seq)))
+		_, msg, err = data.ReadMessage()
+		if err == nil && strings.Contains(string(msg), " 200 ") {
+			return w, nil
+		}
+		if try >= 5 || err != nil || !strings.Contains(string(msg), " 404 ") {
+			return nil, fmt.Errorf("JOIN failed: %q %v", msg, err)
+		}
+		data.Close()
+		time.Sleep(10 * time.Millisecond)
+		if data, _, err = d2.Dial("ws://"+addr+"/streams"+path, nil); err != nil {
+			return nil, err
+		}
+		w.data = data
 	}
-	return w, nil
 }
 
 // wrap sends an RTSP request inside WRAP and returns the RTSP response carried by the WSP response.
